@@ -21,7 +21,7 @@ BUILT = {
    "int SEP fraction phrases must become one numeral 'n MARK d' with value bit-equal to n.d at thresholds 0/10/inf; separator with no number before it / nothing usable after it stays a word (three negative shapes); integer parts of 16+ digits built with the top scale words. Enumerated: all d of length <= 3 x 5 integers x 7 languages; generated 2M quick / 25M thorough.",
    SPELL_NOTE, "§3 C05"),
  "C06": B("property-based testing with a validity predicate over all reported occurrences",
-   "For generated token streams (pipeline tokens and own tokens with hints, biased to ordinal+separator+digit shapes): spans inside the stream, increasing, disjoint, on word tokens, no flagged token inside; text is a well-formed numeral of the language; value bit-equal to its reading; ordinal flag <=> marker; the digits of a non-decimal occurrence equal the rendering of the digit builder exec_group returns for its words (exact digits beyond 2^53). One case in 25 is an English / German decimal of 35-56 dictated digits whose exact value is the midpoint between two adjacent doubles (optionally one digit longer / shorter), so a value computed from a shortened form shows. 4M quick / 40M thorough + libFuzzer (thorough).",
+   "For generated token streams (pipeline tokens, own tokens with hints, and the same stream without whitespace tokens / reduced to word tokens so that occurrences can be directly adjacent; biased to ordinal+separator+digit shapes): spans inside the stream, increasing, disjoint, on word tokens, no flagged token inside; text is a well-formed numeral of the language; value bit-equal to its reading; ordinal flag <=> marker; the digits of a non-decimal occurrence equal the rendering of the digit builder exec_group returns for its words (exact digits beyond 2^53). One case in 25 is an English / German decimal of 35-56 dictated digits whose exact value is the midpoint between two adjacent doubles (optionally one digit longer / shorter), so a value computed from a shortened form shows. 4M quick / 40M thorough + libFuzzer (thorough).",
    "Marker sets per language are those the library emits today (listed in the evidence assumptions).", "§3 C06"),
  "C07": B("differential property-based testing (scanner vs validator)",
    "For generated texts: each non-decimal occurrence's words validate to the same digits; every validated run of <= 6 words is seen by the scanner as exactly one number with those digits; at threshold 0 no uncovered, unflagged word validates alone; every raw segment between two ordinary words (punctuation included) that the validator accepts is seen by the un-annotated scanner as exactly that one number; clauses 1 and 3 also on own-token streams with separation / not-a-number hints. 2M quick / 25M thorough + libFuzzer (thorough).",
@@ -36,7 +36,7 @@ BUILT = {
    "rewrite(A S B,t) == rewrite(A,t) S rewrite(B,t) for generated A, B (with the French determiner+neuf shapes, English o, dangling conjunction/separator) and a strong separator of 3-4 ordinary words + period; spell(a) p spell(b) -> a p b for 16 punctuation separators (incl. typographic quotes) and, enumerated, every punctuation mark / symbol of the common Unicode blocks (1699 characters) glued or spaced between three number pairs in seven languages; whole-run procedure: a prefix of W ordinary words (2W tokens just above 2^10..2^16, thorough 2^20) never changes how a tail with punctuation-linked small numbers is rewritten. 2M quick / 25M thorough.",
    "Separator words exclude the French determiners un/le/du/l'/numéro that act at distance <= 3 by documented design.", "§3 C10"),
  "C11": B("metamorphic property-based testing (recasing)",
-   "Occurrences, validation result and untouched words are compared between a text and its recasing (upper, lower, capitalised, per-char mask) restricted to reversible one-to-one case mappings. 2M quick / 25M thorough.",
+   "Occurrences, validation result and untouched words are compared between a text and its recasing (upper, lower, capitalised, per-char mask) restricted to reversible one-to-one case mappings; the same on own-token streams carrying separation / not-a-number hints (all tokens, and word tokens only). 2M quick / 25M thorough.",
    "Cases where lower(r(s)) != lower(s) are discarded and counted (property precondition).", "§3 C11"),
  "C12": B("model-based property testing (proptest op sequences vs reference model) + exhaustive short traces",
    "Generated operation traces (400k quick / 12M thorough, length 1..40, arguments up to 40 digits and one in 22 of 41..140 digits, 1 in 200 with extreme arguments: 250..700 leading zeros, positions/shifts around 2^16 and up to 70 000) and every trace of length <= 3 (quick) / <= 4 (thorough) over a 19-op alphabet are run against an independent reference model of the builder; all queries compared after every step, plus the statement's direct invariants.",
